@@ -41,7 +41,7 @@ def _second_connection(loop, store):
 @obligation(funcs=["web.start_client", "web.validate_message", "web.send_subscriptions", "storage.base.BaseStorage.subscribe",
                    "storage.base.BaseStorage.unsubscribe", "storage.base.NostrQuery.model_validate",
                    "storage.kv.LMDBStorage.add_event"],
-            params=range(2 * len(HEADS)), timeout=(280, 1500),
+            params=range(2 * len(HEADS)), timeout=(450, 1800),
             bounds="one message [HEAD, a, b][:n] with HEAD by PARAM from {REQ, EVENT, CLOSE, AUTH, lower-case, other string, "
                    "number, null}, a from 32 JSON values (every type; event and filter objects with type-confused fields), b "
                    "from 6, n in 1..3 (all symbolic selectors), or the bare value a as the whole message; mode in {plain, "
